@@ -625,8 +625,12 @@ def run(chk):
         return states
     finals = run_paths(body_[happy[0]:lab[0]], {}, {})
     seen_p = 0
+    n_path = 0
     for env_, loc_, done in finals:
+        n_path += 1
         if "peaceman_denom" not in env_:
+            chk.instance(r_pm, "path%d:unset" % n_path, sample=dict(path=n_path, assigned=sorted(env_)))
+            chk.violation(r_pm, "unset:%s" % ",".join(sorted(env_)), "loadCOMPDAT: a path from the explicit/defaulted decision to CF_done (the one assigning %s) never stores the Peaceman denominator: the connection keeps the value-initialised 0 and CF (ln(r0/rw) + S) = 2 pi Kh does not hold for what is stored" % (sorted(env_) or "nothing"), lcb["file"], body_[happy[0]]["l"])
             continue
         seen_p += 1
         cf = env_.get("CF", {"CF0": 1})
@@ -681,6 +685,20 @@ def run(chk):
     chk.instance(r_pm, "inverse", sample=dict(returns=sy_.show_term(got_ip)))
     if got_ip != want_ip:
         chk.violation(r_pm, "inverse", "inverse_peaceman(cf, kh, rw, skin) returns %s; solving cf (ln(r0/rw) + skin) = 2 pi kh for r0 gives %s: the r0 stored for connections with explicit CF and Kh no longer satisfies the relation" % (sy_.show_term(got_ip), sy_.show_term(want_ip)), ip["file"], ip["l"])
+
+    # the wellbore radius is set on both sides of the "diameter given?" decision (COMPDAT and COMPTRAJ loaders)
+    for lf in [f for f in fx.fns if f["n"] in ("loadCOMPDAT", "loadCOMPTRAJ") and f.get("body") and f["file"].endswith("WellConnections.cpp")]:
+        for n in walk(lf["body"]):
+            if n["k"] != "If" or not isinstance(n.get("cond"), dict) or "hasValue(0)" not in show(n["cond"]) or "iameter" not in show(n["cond"]):
+                continue
+            def sets(br):
+                return [show(strip(x["c"][0])) for x in walk(br) if x["k"] == "Bin" and x.get("asg") and x["op"] == "="] if br is not None else []
+            t_, e_ = sets(n["then"]), sets(n.get("else"))
+            common = set(t_) & set(e_)
+            key = "%s:radius@%d" % (lf["n"], n["l"])
+            chk.instance(r_pm, key, sample=dict(function=lf["q"], given=t_, defaulted=e_))
+            if not common:
+                chk.violation(r_pm, key, "%s: the wellbore radius is assigned %s when the diameter is given and %s when it is defaulted: on one side it keeps its value-initialised 0, and ln(r0/rw) is taken of a zero radius" % (lf["q"], t_ or "nothing", e_ or "nothing"), lf["file"], n["l"])
 
     # ---- C06.zero: the record's one-based cell numbers
     r_zr = chk.rule("C06.zero", "COMPDAT: I, J, K1, K2 are one-based in the record and zero-based in the connection: each is the item's integer minus 1 (I and J fall back to the well head when defaulted or 0), and the connections are created for every layer k = K1 .. K2 inclusive", floor=5)
